@@ -31,7 +31,12 @@ def gen(rng, tier):
         focus["fix"] = True
     if rng.random() < 0.4:
         focus["res_abs"] = True
-    return C.maybe_history(rng, C.forward_spec(rng, tier, focus), 0.3)
+    spec = C.maybe_from_json(rng, C.maybe_history(rng, C.forward_spec(rng, tier, focus), 0.3))
+    if spec.get("history") is None and not spec.get("from_json") and rng.random() < 0.06:
+        # freshly built objects simulated without the state initialisation (a hand-prepared in-progress project)
+        spec["cfg"]["init_state"] = False
+        spec["cfg"]["init_log"] = rng.random() < 0.5
+    return spec
 
 
 def extra_candidates(spec):
